@@ -291,6 +291,10 @@ def check_property(pid: str, tier: str, seed: int, no_lean: bool = False) -> int
     lean_res = None
     if (modules or theorems) and not no_lean:
         lean_res = lean_build_and_audit(pid, modules, theorems, ctx.thorough)
+        if any(status == "error" for _, status, _ in gen):
+            # the theorems that built are about the *previous* generation of the model: none of them
+            # counts as discharged for the current source
+            lean_res["discharged"] = 0
         for name, why in lean_res["broken"]:
             ctx.fail("proof", f"theorem:{name}", f"{name}: {why}")
         if not lean_res["driver_ok"]:
